@@ -492,27 +492,52 @@ def gen_history(rng, nticks, cov, malformed=False):
             t = TickAddEvent(event=rng.choice([StartEvent, StartEvent, MyStart])(i=next(eid)))
         elif ips and r < 0.62:
             nm, ip = rng.choice(ips)
+            # result lists have the shape the step wrapper produces: a prefix of collect/waiter bookkeeping results
+            # recorded while the body ran, then exactly one terminal: a result, a new waiter (suspended in
+            # wait_for_event) or a failure
+            def add_waiter():
+                req = {"k": rng.choice([5, 6])} if rng.random() < 0.5 else {}
+                return AddWaiter(waiter_id=rng.choice(["w1", "w2"]), requirements=req,
+                                 timeout=rng.choice([None, 30.0]), event_type=rng.choice([HR, T3]),
+                                 waiter_event=rng.choice([None, IR(i=next(eid))]))
+
+            def failed():
+                return StepWorkerFailed(exception=rng.choice([ValueError("m1"), RuntimeError("m2"), ValueError("boom")]),
+                                        failed_at=float(now + rng.choice([0, 2, 6])))
             k = rng.random()
-            if k < 0.3:
+            if k < 0.26:
                 res = [out()]
-            elif k < 0.5:
-                res = [StepWorkerFailed(exception=rng.choice([ValueError("m1"), RuntimeError("m2"), ValueError("boom")]),
-                                        failed_at=float(now + rng.choice([0, 2, 6])))]
-            elif k < 0.65:
+            elif k < 0.44:
+                res = [failed()]
+            elif k < 0.56:
                 res = [AddCollectedEvent(event_id=rng.choice(["default", "x"]), event=ip.event),
                        StepWorkerResult(result=None)]
-            elif k < 0.72:
+            elif k < 0.62:
                 res = [DeleteCollectedEvent(event_id=rng.choice(["default", "x"])), out()]
-            elif k < 0.85:
-                req = {"k": rng.choice([5, 6])} if rng.random() < 0.5 else {}
-                res = [AddWaiter(waiter_id=rng.choice(["w1", "w2"]), requirements=req,
-                                 timeout=rng.choice([None, 30.0]), event_type=rng.choice([HR, T3]),
-                                 waiter_event=rng.choice([None, IR(i=next(eid))]))]
-            elif k < 0.93:
+            elif k < 0.74:
+                res = [add_waiter()]
+            elif k < 0.80:
                 res = [DeleteWaiter(waiter_id=rng.choice(["w1", "w2"])), out()]
-            else:
+            elif k < 0.85:
                 res = [AddCollectedEvent(event_id="x", event=ip.event),
                        AddCollectedEvent(event_id="default", event=ip.event), StepWorkerResult(result=None)]
+            else:
+                # mixed prefixes with every kind of terminal (e.g. a first wait consumed, suspended in a second one;
+                # a completed collection followed by a failure)
+                prefix = []
+                for _ in range(rng.choice([1, 1, 2])):
+                    c = rng.random()
+                    if c < 0.4:
+                        prefix.append(DeleteWaiter(waiter_id=rng.choice(["w1", "w2"])))
+                    elif c < 0.7:
+                        prefix.append(DeleteCollectedEvent(event_id=rng.choice(["default", "x"])))
+                    else:
+                        prefix.append(AddCollectedEvent(event_id=rng.choice(["default", "x"]), event=ip.event))
+                term = rng.choice([add_waiter, add_waiter, failed, out])()
+                res = prefix + [term]
+                cov.hit("mixed_result_list")
+                if any(isinstance(x, DeleteWaiter) for x in prefix) and isinstance(term, AddWaiter):
+                    cov.hit("delete_waiter_then_new_waiter")
             t = TickStepResult(step_name=nm, worker_id=ip.worker_id, event=ip.event, result=res)
         elif r < 0.85:
             t = TickAddEvent(event=newev(), step_name=rng.choice([None, None, None] + names + ["zz"]))
